@@ -47,9 +47,16 @@ def same(it, a, b):
 class BackEnd:
     """exploration of one back end function for one aggregate kind"""
 
+    # the interface of each back end the rules model: the cursor / node comes back as the result, the sub-object through (init, ty[, buf, offset])
+    SIGNATURES = {'write_gvar_data': (['Relocation *', 'Initializer *', 'Type *', 'char *', 'int'], 'Relocation *'),
+                  'create_lvar_init': (['Initializer *', 'Type *', 'InitDesg *', 'Token *'], 'Node *')}
+
     def __init__(self, P, u, E, fname):
         self.P, self.u, self.E, self.fname = P, u, E, fname
         self.static = fname == 'write_gvar_data'
+        if fname in self.SIGNATURES:
+            from ..build import require_signature
+            require_signature(u, fname, *self.SIGNATURES[fname])
 
     def interp(self, extra_models=None, loop_limit=2, cls=None):
         be = self
